@@ -796,6 +796,96 @@ Proof.
 Qed.
 
 (* ------------------------------------------------------------------ *)
+(* `not in` between two lists is coherent when the members of the left list are plain scalars *)
+
+Definition scalar_plain (v : pv) : bool :=
+  match v with PNull _ | PString _ _ | PBool _ _ | PInt _ _ => true | _ => false end.
+
+Lemma peq_refl_scalar x : scalar_plain x = true -> partial_eq re x x = Done true.
+Proof.
+  destruct x; try discriminate; intros _; cbn.
+  - reflexivity.
+  - assert (E : String.compare s s = Eq) by (pose proof (String.compare_antisym s s) as A; destruct (String.compare s s); cbn in A; try discriminate; reflexivity). rewrite E. reflexivity.
+  - destruct b; reflexivity.
+  - rewrite Z.compare_refl. reflexivity.
+Qed.
+
+Lemma peq_scalar_same y x : scalar_plain y = true -> scalar_plain x = true -> partial_eq re y x = Done true ->
+  forall z, partial_eq re z y = partial_eq re z x.
+Proof.
+  intros Hy Hx H z. destruct y, x; try discriminate; cbn in H; try discriminate.
+  - destruct z; reflexivity.
+  - destruct (String.compare s s0) eqn:E; try discriminate. apply String.compare_eq_iff in E. subst. destruct z; reflexivity.
+  - inversion H as [E]. apply Bool.eqb_prop in E. subst. destruct z; reflexivity.
+  - destruct (Z.compare z0 z1) eqn:E; try discriminate. apply Z.compare_eq_iff in E. subst. destruct z; reflexivity.
+Qed.
+
+Lemma contains_congr l y x : (forall z, partial_eq re z y = partial_eq re z x) -> contains_pv re l y = contains_pv re l x.
+Proof. intros H. induction l as [|a l IH]; cbn; [reflexivity|]. rewrite H, IH. reflexivity. Qed.
+
+Lemma contains_member l x c : contains_pv re l x = Done c -> In x l -> partial_eq re x x = Done true -> c = true.
+Proof.
+  induction l as [|y l IH]; intros H Hin Hr; [destruct Hin|]. cbn in H.
+  destruct (partial_eq re y x) as [[|]| | | |] eqn:E; cbn in H; try discriminate; [inversion H; reflexivity|].
+  destruct Hin as [->|Hin]; [congruence|]. apply IH; assumption.
+Qed.
+
+Lemma contains_true_inv l x : contains_pv re l x = Done true -> exists y, In y l /\ partial_eq re y x = Done true.
+Proof.
+  induction l as [|y l IH]; cbn; [discriminate|].
+  destruct (partial_eq re y x) as [[|]| | | |] eqn:E; cbn; try discriminate.
+  - intros _. exists y. split; [now left|exact E].
+  - intros H. destruct (IH H) as (y0 & Hy & Ey). exists y0. split; [now right|exact Ey].
+Qed.
+
+Lemma not_contained_spec l o out : not_contained re l o = Done out ->
+  (forall x, In x l -> exists c, contains_pv re o x = Done c) /\
+  (forall x, In x out <-> In x l /\ contains_pv re o x = Done false).
+Proof.
+  revert out. induction l as [|a l IH]; intros out H; cbn in H.
+  - inversion H; subst. split; [intros x []|]. intros x. split; [intros []|intros [[] _]].
+  - destruct (contains_pv re o a) as [c| | | |] eqn:Ea; cbn in H; try discriminate.
+    destruct (not_contained re l o) as [rest| | | |] eqn:Er; cbn in H; try discriminate. inversion H; subst; clear H.
+    destruct (IH rest eq_refl) as [I1 I2]. split.
+    + intros x [->|Hx]; [eauto|apply I1, Hx].
+    + intros x. destruct c.
+      * rewrite I2. split; [intros [Hx Hc]; split; [now right|exact Hc]|].
+        intros [[->|Hx] Hc]; [congruence|split; assumption].
+      * cbn. rewrite I2. split.
+        -- intros [->|[Hx Hc]]; [split; [now left|exact Ea]|split; [now right|exact Hc]].
+        -- intros [[->|Hx] Hc]; [now left|right; split; assumption].
+Qed.
+
+Lemma none_in_spec l o b : none_in re l o = SOk b -> (b = true <-> forall x, In x l -> contains_pv re o x = Done false).
+Proof.
+  unfold none_in. revert b. induction l as [|a l IH]; intros b H; cbn in H.
+  - inversion H; subst. split; [intros _ x []|reflexivity].
+  - destruct (contains_pv re o a) as [c| | | |] eqn:Ea; try discriminate.
+    match type of H with sbind ?m _ = _ => destruct m as [b0| |] eqn:Er end; cbn in H; try discriminate. inversion H; subst; clear H.
+    specialize (IH b0 eq_refl). destruct c; cbn.
+    + split; [discriminate|]. intros Hall. specialize (Hall a (or_introl eq_refl)). congruence.
+    + rewrite IH. split; [intros Hall x [->|Hx]; [exact Ea|apply Hall, Hx]|intros Hall x Hx; apply Hall; now right].
+Qed.
+
+Theorem notin_coherent_scalars l rhsl : forallb scalar_plain l = true -> notin_coherent l rhsl.
+Proof.
+  intros Hsc diff rd b Hd Hne Hrd Hn. rewrite forallb_forall in Hsc.
+  destruct (not_contained_spec _ _ _ Hd) as [D1 D2]. destruct (not_contained_spec _ _ _ Hrd) as [R1 R2].
+  pose proof (none_in_spec _ _ _ Hn) as N. split.
+  - (* nothing is left over: then no member is in the right list *)
+    intros ->. apply N. intros x0 Hx0. destruct (D1 x0 Hx0) as [c Hc]. destruct c; [|exact Hc]. exfalso.
+    destruct (R1 x0 Hx0) as [c2 Hc2]. destruct c2.
+    + destruct (contains_true_inv _ _ Hc2) as (y & Hy & Ey). apply D2 in Hy as [Hyl Hyc].
+      rewrite (contains_congr rhsl y x0 (peq_scalar_same y x0 (Hsc y Hyl) (Hsc x0 Hx0) Ey)) in Hyc. congruence.
+    + assert (Hin : In x0 []) by (apply R2; split; assumption). destruct Hin.
+  - (* no member is in the right list: then every member is among the ones not found *)
+    intros ->. destruct N as [N _]. specialize (N eq_refl). destruct rd as [|x rd']; [reflexivity|]. exfalso.
+    assert (Hx : In x (x :: rd')) by now left. apply R2 in Hx as [Hxl Hxc].
+    assert (Hxd : In x diff) by (apply D2; split; [exact Hxl|apply N, Hxl]).
+    pose proof (contains_member diff x false Hxc Hxd (peq_refl_scalar x (Hsc x Hxl))). discriminate.
+Qed.
+
+(* ------------------------------------------------------------------ *)
 (* unary operators *)
 
 Definition rel_ob (o : outcome bool) (x : sres bool) : Prop :=
